@@ -60,7 +60,7 @@ def run_case(case):
         # a gpsd daemon that completes the handshake and then says nothing more ("silent") or keeps
         # reporting fixes ("talking"); quitting must not wait for it
         from feed import FakeGpsd
-        gpsd = FakeGpsd()
+        gpsd = FakeGpsd(proto_major=2 if case.get("gpsd_server") == "badproto" else 3)
         gpsd.start()
         opts = [o for o in opts if o != "--gpsd"] + ["--gpsd", "--gpsd-ip", gpsd.ip]
     ft = None if any(o.startswith("--filter-time") for o in opts) else (1 if case.get("expiry") else None)
@@ -87,7 +87,7 @@ def run_case(case):
 
         if connect and not check("start"):
             return fails
-        if gpsd is not None and gpsd.ready.wait(8.0):
+        if gpsd is not None and gpsd.ready.wait(8.0) and case.get("gpsd_server") != "badproto":
             try:
                 gpsd.report(RX[0] + 0.01, RX[1] + 0.01)
             except OSError:
@@ -160,7 +160,7 @@ def run_case(case):
             if not s.alive():
                 fails.append(("C17/crash/start_no_server", f"radar terminated while waiting for a connection: {s.stderr()[-300:]}"))
                 return fails
-        q = s.quit("q" if case["quit"] == 0 else "ctrl-c", 6.0)
+        q = s.quit(["q", "ctrl-c", "q+enter", "ctrl-c+down"][case["quit"] % 4], 6.0)
         ctx = "while waiting for a connection" if not connect else "after the session"
         tag = "no_server" if not connect else "session"
         if q["rc"] is None:
@@ -286,8 +286,8 @@ def burst_cases():
         out.append(dict(base, rx=i, steps=[["feed", 3, 1], ["feed_tab", 3, 1, 3], ["feed_tab", 2, 1, 0], ["key", 2], ["key", 7], ["key", 10]]))
     # quit (q and ctrl-c) while a gpsd daemon is connected and silent / talking; 150 unknown keys in
     # one burst (and a resize) on the waiting screen with nobody listening
-    for g in ("silent", "talking"):
-        for q in (0, 1):
+    for g in ("silent", "talking", "badproto"):
+        for q in (0, 1, 2, 3):
             out.append(dict(base, gpsd_server=g, quit=q, steps=[["feed", 2, 1], ["key", 0], ["key", 2]]))
     out.append(dict(base, no_server=True, wait_keys=[[18] * 150, [5, 30, 44], [21] * 150, [13] * 150], steps=[]))
     # a crowd: 400 positioned aircraft, every tab, selection keys far down the table, zoom, a small
@@ -330,13 +330,13 @@ def worker(args):
         "cols": st.one_of(st.integers(0, len(SIZES_C) - 1), st.integers(0, 3)),
         "expiry": st.booleans(),
         "steps": st.lists(step, max_size=18),
-        "quit": st.integers(0, 1),
+        "quit": st.sampled_from([0, 1, 0, 1, 2, 3]),
         "no_server": st.sampled_from([False, False, False, False, False, True]),
         "locations": st.one_of(st.none(), st.just(["(home,52.1,4.2)"]), st.just(["(a,51.0,3.0)", "(b,53.5,6.5)"])),
         "scale": st.one_of(st.none(), st.sampled_from([0.12, 0.01, 5.0, 1e-9, 1e9, 0.0, -1.0, -0.12, "nan", "inf"])),
         "rx": st.integers(0, len(RXS) - 1),
         "wait_keys": st.lists(st.one_of(st.lists(st.integers(5, len(KEYSET) - 1), min_size=1, max_size=4), st.integers(5, 30).map(lambda k: [k] * 150)), max_size=3),
-        "gpsd_server": st.sampled_from([None, None, None, None, "silent", "talking"]),
+        "gpsd_server": st.sampled_from([None, None, None, None, None, "silent", "talking", "badproto"]),
     })
     cli = st.fixed_dictionaries({"cli": st.just(True), "opt": st.sampled_from(sorted(BAD_VALUES) + ["--locations", "--locations"]), "val": st.integers(0, 19), "extra_location": st.booleans()})
     # (one_of over strategies of very different size favours the small one: pick the kind explicitly;
